@@ -493,6 +493,86 @@ theorem job_blocks_all_handed (b : Backend) (env : Env) (st : ExecState) (q : Qu
     | ok ls' => rw [hg] at hj; simpa using hj
     | error e' => rw [hg] at hj; simp at hj
 
+/-- `generate_script_block` drops no line: when it succeeds, every line of every block it was given
+is in its output (from `C15.sound` and `C15.complete`: no two blocks of one name differ) -/
+theorem genScript_keeps_every_line (bs : List C15.JB) (out : List String) (h : C15.genScript bs = .ok out) :
+    ∀ jb ∈ bs, ∀ l ∈ jb.script, l ∈ out := by
+  unfold C15.genScript at h
+  cases hg : C15.genScriptOrder bs with
+  | error e => rw [hg] at h; simp at h
+  | ok r =>
+    obtain ⟨π, o⟩ := r
+    rw [hg] at h
+    simp only [Except.ok.injEq] at h
+    subst h
+    obtain ⟨_, _, hall, hout, _⟩ := C15.sound bs π o hg
+    have hnc : ¬ C15.Conflict bs := by
+      intro hc
+      obtain ⟨e, he⟩ := (C15.complete bs).2 (Or.inl hc)
+      rw [hg] at he; cases he
+    intro jb hjb l hl
+    have hn : jb.name ∈ π := hall jb.name (List.mem_map.2 ⟨jb, hjb, rfl⟩)
+    rw [hout, List.mem_flatMap]
+    refine ⟨jb.name, hn, ?_⟩
+    unfold C15.scriptOf
+    cases hf : bs.find? (fun b => b.name == jb.name) with
+    | none =>
+      have := List.find?_eq_none.1 hf jb hjb
+      simp at this
+    | some b' =>
+      have hb' : b' ∈ bs := List.mem_of_find?_eq_some hf
+      have hname : b'.name = jb.name := by simpa using List.find?_some hf
+      have : b'.script = jb.script := by
+        by_cases hs : b'.script = jb.script
+        · exact hs
+        · exact absurd ⟨b', hb', jb, hjb, hname, hs⟩ hnc
+      simp only [this]
+      exact hl
+
+/-- **C09.job_lines_all_emitted** — on a backend that BUILDS a job script (hypothesis `hb`: of the
+three executors only ATLAS, `exec_backends`) nothing that was asked for is dropped: every line of
+every `add_job_script` block of the chain is among the lines the accepted package carries. -/
+theorem job_lines_all_emitted (b : Backend) (env : Env) (st : ExecState) (q : Query) (p : Package)
+    (hb : b.jobScripts = true) (h : (run b env st q).result = .ok p) :
+    jobLinesKept (jobBlocks q) p.jobLines = true := by
+  have hg := job_blocks_all_handed b env st q p hb h
+  have hk := genScript_keeps_every_line _ _ hg
+  simp only [jobLinesKept, List.all_eq_true, List.contains_iff_mem]
+  intro jb hjb l hl
+  exact hk jb (List.mem_append.2 (Or.inr hjb)) l hl
+
+/-- the ATLAS executor as regenerated from its source, and a world in which every file renders -/
+def leakBackend : Backend := ⟨"atlas", ["ATestRun_eljob.py", "package_CMakeLists.txt", "query.cxx", "query.h", "runner.sh"], "runner.sh", true, []⟩
+def leakEnv : Env := ⟨true, fun _ => .ok⟩
+
+/-- the CMS AOD executor as regenerated from its source (no job script), and two queries that send
+job-script blocks to it: a well-formed one, and one whose dependency names a block never sent -/
+def cmsBackend : Backend := ⟨"cms_aod", ["analyzer_cfg.py", "Analyzer.cc", "BuildFile.xml", "copy_root_tree.C", "runner.sh"], "runner.sh", false, []⟩
+def cmsJobItem (deps : List String) : Item :=
+  { md := ⟨some "add_job_script", ["name", "script", "depends_on"], false⟩, name := "vpjob", script := ["# vp asked for"], deps := deps }
+def cmsJobQuery (deps : List String) : Query := ⟨[cmsJobItem deps], [], .otherCall, .node "Name" "" 0 []⟩
+
+/-- **C09.cms_jobscript_dropped_counterexample** — `job_blocks_all_handed` / `job_lines_all_emitted` /
+`malformed_jobs_refused` are FALSE without the hypothesis `b.jobScripts = true`, and the code is such a
+case: the CMS executors (`exec_backends`: `jobScripts = false`) accept a query that sends an
+`add_job_script` block and emit NONE of its lines — what was asked for is silently dropped — and
+they accept a block whose dependency was never sent (malformed by `jobMalformed`), which ATLAS
+refuses. (Both inputs are replayed on the real cms_aod / cms_miniaod executors on every run;
+listed findings.) -/
+theorem cms_jobscript_dropped_counterexample :
+    (ExecSrc.backends.any fun s => s.name == cmsBackend.name && s.files == cmsBackend.files && s.runner == cmsBackend.runner &&
+      s.jobScripts == cmsBackend.jobScripts) = true ∧
+    -- well-formed block: accepted, its line is in no file
+    (run cmsBackend leakEnv .ground (cmsJobQuery [])).result.toOption.map (·.jobLines) = some [] ∧
+    jobLinesKept (jobBlocks (cmsJobQuery [])) [] = false ∧
+    -- dangling dependency: malformed, accepted all the same …
+    jobMalformedB (jobBlocks (cmsJobQuery ["never_sent"])) = true ∧
+    (errOf (run cmsBackend leakEnv .ground (cmsJobQuery ["never_sent"])).result) = none ∧
+    -- … while the same query is refused by a backend that builds the job script
+    (errOf (run leakBackend leakEnv .ground (cmsJobQuery ["never_sent"])).result) =
+      some (.jobScript (.missing "never_sent" "vpjob")) := by
+  decide
+
 theorem job_block_member (pre post : List Item) (it : Item) (q : Query) (jb : C15.JB) (h : contribOf it = .job jb) :
     jb ∈ jobBlocks { q with items := pre ++ it :: post } := by
   simp [jobBlocks, allContribs, jobsOf_append, jobsOf, h]
@@ -558,8 +638,6 @@ theorem refused_state_exact (b : Backend) (env : Env) (st : ExecState) (q : Quer
 
 /-- a literal translation history on ATLAS: a query that declares a job-script block and is refused
 by the visitor (`//`), then a query without any metadata on the same executor -/
-def leakBackend : Backend := ⟨"atlas", ["ATestRun_eljob.py", "package_CMakeLists.txt", "query.cxx", "query.h", "runner.sh"], "runner.sh", true, []⟩
-def leakEnv : Env := ⟨true, fun _ => .ok⟩
 def leakFirst : Query :=
   ⟨[{ md := ⟨some "add_job_script", ["name", "script", "depends_on"], false⟩, name := "vpleak", script := ["# leaked line"] }],
    [], .otherCall, .node "BinOp" "FloorDiv" 0 [.node "Name" "" 0 [], .node "Constant" "" 0 []]⟩
